@@ -51,7 +51,14 @@ def cases(ctx):
         # float data: ^ joins two halves that touch at crossing points which are no longer bit-identical
         # (inexact-contact class, known finding F17 under C01): the float stream uses | & - ~ only
         ops = list("|&-^") + ["~", "in", "pt"] if num == "frac" else list("|&-") + ["~", "in", "pt"]
-        yield {"env": env, "op": rng.choice(ops), "k": k, "rot": rng.choice(ROTS), "mv": rng.choice(MOVES), "num": num}
+        case = {"env": env, "op": rng.choice(ops), "k": k, "rot": rng.choice(ROTS), "mv": rng.choice(MOVES), "num": num}
+        if i % 3 == 1 and num == "frac":
+            # T applied by the library itself, in place, to operands that have already been used once (scale and
+            # move are exact on Fractions; rotate works in floats, so the in-place stream uses no rotation)
+            case["rot"] = ROTS[0]
+            case["inplace"] = True
+            case["order"] = (i // 3) % 2
+        yield case
 
 
 def shallow_env(rng):
@@ -114,6 +121,74 @@ def _T(case):
     return lambda p: (k * (c * p[0] - s * p[1]) + vx, k * (s * p[0] + c * p[1]) + vy)
 
 
+def _check_inplace(ctx, case, T):
+    """the operands are used once (which fills whatever the library memoises), then transformed by the library's own
+    scale / move IN PLACE, one step at a time in either order, and used again after every step: each answer must be
+    the image of the first under the map applied so far"""
+    fails = []
+    env, op, k, (vx, vy) = case["env"], case["op"], case["k"], case["mv"]
+    ctx.count("inplace")
+    A, B = I.mk_shape(env[0], "frac"), I.mk_shape(env[1], "frac")
+    f = {"|": lambda a, b: a | b, "&": lambda a, b: a & b, "-": lambda a, b: a - b, "^": lambda a, b: a ^ b,
+         "~": lambda a, b: ~a, "in": lambda a, b: bool(b in a),
+         "pt": lambda a, b: None}[op]
+    pts = OC.sample_points(env)
+    pts = [p for p in pts if O.region(env[0], p) in ("in", "out")]
+    ask = lambda a, M: [bool(a.contains_point(M(p), True)) for p in pts[::2]]
+    r0 = I.outcome(lambda: f(A, B))
+    q0 = ask(A, lambda p: p)
+    d0 = I.shape_data(r0[1]) if r0[0] == "ok" and op not in ("in", "pt") else None
+    mv = (vx, vy) if (vx, vy) != (0, 0) else (F(5), F(-3))
+    steps = [("scale", k), ("move", mv)] if case.get("order", 0) == 0 else [("move", mv), ("scale", k)]
+    steps.append(("move", (-mv[1], mv[0] / 2)))
+    sc, tr = F(1), (F(0), F(0))                   # the map so far: p -> sc * p + tr
+    for name, arg in steps:
+        if name == "scale":
+            if arg == 1:
+                continue
+            for X in (A, B):
+                X.scale(arg, arg)
+            sc, tr = sc * arg, (tr[0] * arg, tr[1] * arg)
+        else:
+            for X in (A, B):
+                X.move(arg)
+            tr = (tr[0] + arg[0], tr[1] + arg[1])
+        M = (lambda sc, tr: lambda p: (sc * p[0] + tr[0], sc * p[1] + tr[1]))(sc, tr)
+        after = "after %s in place of operands already used" % name
+        r1 = I.outcome(lambda: f(A, B))
+        q1 = ask(A, M)
+        if q0 != q1:
+            fails.append(Fail(kind="O", what="T(p) in T(A) differs from p in A " + after, impl=q1, expected=q0))
+            return fails
+        if r0[0] != r1[0]:
+            fails.append(Fail(kind="O", what="operator outcome changes " + after, impl=(r1[0], str(r1[1])[:80]), expected=(r0[0], str(r0[1])[:80])))
+            return fails
+        if r0[0] != "ok" or op == "pt":
+            continue
+        if op == "in":
+            if r0[1] != r1[1]:
+                fails.append(Fail(kind="O", what="T(B) in T(A) differs from B in A " + after, impl=r1[1], expected=r0[1]))
+                return fails
+            continue
+        d1 = I.shape_data(r1[1])
+        if d0[0] != d1[0]:
+            fails.append(Fail(kind="O", what="kind of the result changes " + after, impl=d1[0], expected=d0[0]))
+            return fails
+        if d0[0] not in "EW":
+            a0, a1 = O.moment_shape(d0, 0, 0), O.moment_shape(d1, 0, 0)
+            if not U.num_close(a1, sc * sc * a0, 1e-9, 0):
+                fails.append(Fail(kind="O", what="area does not scale by the square of the factor " + after, impl=a1, expected=sc * sc * a0))
+                return fails
+            for p in pts:
+                ra, rb = O.region(d0, p), O.region(d1, M(p))
+                if "bdry" in (ra, rb):
+                    continue
+                if ra != rb:
+                    fails.append(Fail(kind="O", what="T(A) op T(B) is not T(A op B) at a sample point " + after, p=p, impl=rb, expected=ra))
+                    return fails
+    return fails
+
+
 def check(ctx, case):
     fails = []
     if case.get("curved"):
@@ -136,6 +211,8 @@ def check(ctx, case):
     tenv = [U.map_shape(s, T) for s in env]
     exact = num != "float"
     mk = lambda d: I.mk_shape(d, num)
+    if case.get("inplace"):
+        return _check_inplace(ctx, case, T)
     if op == "pt":
         pts = OC.sample_points(env)[::2]
         A, TA = mk(env[0]), mk(tenv[0])
